@@ -5,12 +5,15 @@ import (
 	"bytes"
 	"fmt"
 	"math/big"
+	"strings"
 	"time"
 
 	sdkmath "cosmossdk.io/math"
 	"github.com/cosmos/cosmos-sdk/client"
+	codectypes "github.com/cosmos/cosmos-sdk/codec/types"
 	sdk "github.com/cosmos/cosmos-sdk/types"
 	authsigning "github.com/cosmos/cosmos-sdk/x/auth/signing"
+	authtx "github.com/cosmos/cosmos-sdk/x/auth/tx"
 	"github.com/ethereum/go-ethereum/common"
 	ethtypes "github.com/ethereum/go-ethereum/core/types"
 	"github.com/ethereum/go-ethereum/crypto"
@@ -152,6 +155,7 @@ func Worker(shard, n int, tier string) *engine.Result {
 			}
 		}
 	}
+	batchWorker(res, shard, n, tier)
 	return res
 }
 
@@ -380,6 +384,12 @@ func checkCase(res *engine.Result, txConfig client.TxConfig, c txCase, key []byt
 	if err := m2.ValidateBasic(); err != nil {
 		viol("roundtrip-validate", "the decoded message fails ValidateBasic", map[string]any{"err": err.Error()})
 	}
+	// unwrapping by Ethereum hash (the route the JSON-RPC backend takes)
+	if um, uerr := evmtypes.UnwrapEthereumMsg(&dec, tx.Hash()); uerr != nil || um == nil {
+		viol("unwrap-by-hash", "the decoded envelope does not yield the transaction by its Ethereum hash", map[string]any{"err": fmt.Sprint(uerr)})
+	} else if f := compareTx(tx, um.AsTransaction(), signer); f != "" || um.Hash != tx.Hash().Hex() {
+		viol("unwrap-by-hash", "the transaction unwrapped by hash differs from the original", map[string]any{"field": f})
+	}
 	// the sender the message itself reports (GetSender / GetSigners) is the one recoverable from the
 	// signature - whatever the unsigned From field of the envelope says, and whatever the message
 	// object held before it was refilled
@@ -416,13 +426,159 @@ func checkCase(res *engine.Result, txConfig client.TxConfig, c txCase, key []byt
 	}
 }
 
+// batchWorker: envelopes carrying several Ethereum messages (what a batching client submits). All
+// ordered tuples of length 2..L over a base set of distinct signed transactions are wrapped into one
+// envelope, encoded, decoded, and every member is unwrapped by its Ethereum hash.
+func batchWorker(res *engine.Result, shard, n int, tier string) {
+	enc := encoding.MakeConfig(app.ModuleBasics)
+	txConfig := enc.TxConfig
+	signer := ethtypes.LatestSignerForChainID(chainID)
+	addr := common.HexToAddress("0x1234567890abcdef1234567890abcdef12345678")
+	var base []*ethtypes.Transaction
+	var names []string
+	for k := 0; k < 2; k++ {
+		key, _ := crypto.ToECDSA(crypto.Keccak256([]byte(fmt.Sprintf("verif-c18-key-%d", k))))
+		for typ := 0; typ < 3; typ++ {
+			for ti, to := range []*common.Address{&addr, nil} {
+				if k == 1 && ti == 1 {
+					continue
+				}
+				c := txCase{typ: typ, nonce: uint64(len(base)), gas: 21000 + uint64(1000*len(base)), price: big.NewInt(int64(10 + len(base))), tip: big.NewInt(1), cap: big.NewInt(int64(10 + len(base))),
+					to: to, value: big.NewInt(int64(len(base))), data: []byte{byte(len(base))}, chain: chainID}
+				if typ > 0 {
+					c.al = ethtypes.AccessList{{Address: addr, StorageKeys: []common.Hash{{byte(typ)}}}}
+				}
+				tx, err := ethtypes.SignTx(c.build(), signer, key)
+				if err != nil {
+					panic(err)
+				}
+				base = append(base, tx)
+				names = append(names, fmt.Sprintf("t%d(type=%d,key=%d,to=%v)", len(base)-1, typ, k, to != nil))
+			}
+		}
+	}
+	maxLen := 3
+	if tier == "thorough" {
+		maxLen = 4
+	}
+	idx := 0
+	var rec func(tuple []int)
+	check := func(tuple []int) {
+		var desc []string
+		for _, i := range tuple {
+			desc = append(desc, names[i])
+		}
+		cas := "envelope[" + strings.Join(desc, ",") + "]"
+		res.Evaluations++
+		viol := func(field, what string, detail map[string]any) {
+			if detail == nil {
+				detail = map[string]any{}
+			}
+			detail["case"] = cas
+			res.AddViolation(engine.Violation{Signature: fmt.Sprintf("C18|batch=%d|field=%s", len(tuple), field), What: what, Path: []string{cas}, Detail: detail})
+		}
+		builder, ok := txConfig.NewTxBuilder().(authtx.ExtensionOptionsTxBuilder)
+		if !ok {
+			panic("tx builder without extension options")
+		}
+		option, err := codectypes.NewAnyWithValue(&evmtypes.ExtensionOptionsEthereumTx{})
+		if err != nil {
+			panic(err)
+		}
+		builder.SetExtensionOptions(option)
+		var msgs []sdk.Msg
+		fees := sdkmath.ZeroInt()
+		gas := uint64(0)
+		for _, i := range tuple {
+			m := &evmtypes.MsgEthereumTx{}
+			if err := m.FromEthereumTx(base[i]); err != nil {
+				panic(err)
+			}
+			msgs = append(msgs, m)
+			fees = fees.Add(sdkmath.NewIntFromBigInt(m.GetFee()))
+			gas += m.GetGas()
+		}
+		if err := builder.SetMsgs(msgs...); err != nil {
+			panic(err)
+		}
+		builder.SetFeeAmount(sdk.NewCoins(sdk.NewCoin("aISLM", fees)))
+		builder.SetGasLimit(gas)
+		bz, err := txConfig.TxEncoder()(builder.GetTx())
+		if err != nil {
+			viol("envelope", "encoding a multi-message envelope failed", map[string]any{"err": err.Error()})
+			return
+		}
+		dec, err := txConfig.TxDecoder()(bz)
+		if err != nil {
+			viol("envelope", "decoding a multi-message envelope failed", map[string]any{"err": err.Error()})
+			return
+		}
+		if len(dec.GetMsgs()) != len(tuple) {
+			viol("envelope-msgs", "decoded envelope carries a different number of messages", nil)
+			return
+		}
+		for pos, i := range tuple {
+			um, uerr := evmtypes.UnwrapEthereumMsg(&dec, base[i].Hash())
+			if uerr != nil || um == nil {
+				viol("unwrap-by-hash", "a transaction of the envelope cannot be unwrapped by its Ethereum hash", map[string]any{"position": pos, "err": fmt.Sprint(uerr)})
+				continue
+			}
+			if f := compareTx(base[i], um.AsTransaction(), signer); f != "" {
+				viol("unwrap-"+f, "the transaction unwrapped by hash differs from the original", map[string]any{"position": pos})
+			}
+			if um.Hash != base[i].Hash().Hex() {
+				viol("msg-hash", "hash recorded in the unwrapped message differs from the Ethereum hash", map[string]any{"position": pos})
+			}
+			m2, ok := dec.GetMsgs()[pos].(*evmtypes.MsgEthereumTx)
+			if !ok || m2.AsTransaction().Hash() != base[i].Hash() {
+				viol("order", "message order of the envelope changed in the round trip", map[string]any{"position": pos})
+			}
+		}
+		for i := range base {
+			in := false
+			for _, j := range tuple {
+				in = in || i == j
+			}
+			if !in {
+				if um, uerr := evmtypes.UnwrapEthereumMsg(&dec, base[i].Hash()); uerr == nil {
+					viol("unwrap-foreign", "a hash that is not in the envelope was unwrapped", map[string]any{"got": um.Hash})
+				}
+				break
+			}
+		}
+		res.Outcomes["batch-ok"]++
+		res.Nontrivial[cas] = true
+	}
+	rec = func(tuple []int) {
+		if len(tuple) >= 2 {
+			idx++
+			if idx%n == shard {
+				check(tuple)
+			}
+		}
+		if len(tuple) == maxLen {
+			return
+		}
+		for i := range base {
+			dup := false
+			for _, j := range tuple {
+				dup = dup || i == j
+			}
+			if !dup {
+				rec(append(append([]int{}, tuple...), i))
+			}
+		}
+	}
+	rec(nil)
+}
+
 func Run(tier string) int {
 	start := time.Now()
 	res := engine.RunSharded(Prop, tier, 16, Worker)
 	res.TracesImpl = res.Evaluations
 	return engine.Finish(res, engine.Meta{
 		Property: Prop, Tier: tier, Level: "model_checking", Start: start,
-		Rule:        "full cartesian grid of field values for the three tx types x 2 signing keys x chain ids through FromEthereumTx -> ValidateBasic -> BuildTx -> TxEncoder -> TxDecoder -> GetMsgs -> AsTransaction; non-trivial = case accepted by ValidateBasic and carried through the Cosmos encoding",
+		Rule:        "full cartesian grid of field values for the three tx types x 2 signing keys x chain ids through FromEthereumTx -> ValidateBasic -> BuildTx -> TxEncoder -> TxDecoder -> GetMsgs / UnwrapEthereumMsg(hash) -> AsTransaction; plus all ordered tuples of length 2..3 (thorough 4) over 9 distinct signed transactions in ONE envelope, each member unwrapped by its hash; non-trivial = case accepted by ValidateBasic and carried through the Cosmos encoding",
 		Assumptions: []string{"ValidateBasic-rejected cases (fee overflow, tip > cap, gas 0 or > MaxInt64) are compared only for the wrap/unwrap leg; reference predicate for the verdict is stated in the driver"},
 	})
 }
